@@ -331,6 +331,11 @@ pub fn panic_in_sut(loc: &str) -> bool {
     loc.contains("/repo/") || loc.contains("emulator-2a")
 }
 
+/// harness sources are compiled with relative paths (src/...), /repo's with absolute ones
+pub fn panic_in_harness(loc: &str) -> bool {
+    !panic_in_sut(loc) && (loc.starts_with("src/") || loc.contains("/verif/"))
+}
+
 /// Run `f`, converting a panic inside SUT code into `Err((location, message))`.
 /// A panic inside harness code aborts the process with exit status 2.
 pub fn guard<T>(f: impl FnOnce() -> T) -> Result<T, (String, String)> {
@@ -338,7 +343,7 @@ pub fn guard<T>(f: impl FnOnce() -> T) -> Result<T, (String, String)> {
         Ok(v) => Ok(v),
         Err(_) => {
             let (loc, msg) = take_last_panic().unwrap_or_else(|| ("<unknown>".into(), "<unknown>".into()));
-            if panic_in_sut(&loc) || !loc.contains("/verif/") {
+            if !panic_in_harness(&loc) {
                 Err((loc, msg))
             } else {
                 eprintln!("HARNESS-ERROR: panic in harness code at {}: {}", loc, msg);
@@ -354,7 +359,7 @@ fn exec_guarded<C: Check>(c: &C, scn: &C::Scn, ctx: &mut Ctx) -> Result<(), Viol
         Ok(r) => r,
         Err(_) => {
             let (loc, msg) = take_last_panic().unwrap_or_else(|| ("<unknown>".into(), "<unknown>".into()));
-            if loc.contains("/verif/") {
+            if panic_in_harness(&loc) {
                 eprintln!("HARNESS-ERROR: panic in harness code at {}: {}", loc, msg);
                 std::process::exit(2);
             }
@@ -657,7 +662,7 @@ pub fn run_check<C: Check>(c: &C, opts: &Opts) -> i32 {
             Ok(r) => r,
             Err(_) => {
                 let (loc, msg) = take_last_panic().unwrap_or_default();
-                if loc.contains("/verif/") {
+                if panic_in_harness(&loc) {
                     eprintln!("HARNESS-ERROR: panic in harness code at {}: {}", loc, msg);
                     return 2;
                 }
